@@ -181,10 +181,12 @@ static RunPlan gen_plan(Rng& rng, int nrules, bool big) {
   return rp;
 }
 
-struct RunReport { std::string sig, klass, detail; uint64_t sched_hash = 0; SchedStats st; int64_t scans = 0; int64_t new_hot = 0; };
+struct RunReport { std::string sig, klass, detail; uint64_t sched_hash = 0; SchedStats st; int64_t scans = 0; int64_t new_hot = 0; std::vector<SchedEntry> trace; };
 
-static RunReport execute(const std::vector<Shared>& shared, const RunPlan& rp, uint64_t run_seed) {
+static RunReport execute(const std::vector<Shared>& shared, const RunPlan& rp, uint64_t run_seed, const std::vector<SchedEntry>* script = nullptr) {
   RunReport rep; const Shared& sh0 = shared[rp.rules_idx];
+  sim_rand_seed(run_seed);
+  sim_detheap_reset();
   // solo references use the long-lived rule set; the concurrent phase gets a copy loaded just now, so that
   // its threads are the first ever to create scanners on it (lazy per-rule-set initialisation would race here)
   Shared sh = sh0; YR_RULES* fresh = NULL;
@@ -204,13 +206,13 @@ static RunReport execute(const std::vector<Shared>& shared, const RunPlan& rp, u
   // ---- concurrent phase
   std::vector<std::vector<ScanResult>> conc(rp.tasks.size());
   g_watch.resync();
-  sched_begin(run_seed, rp.pol);
+  if (script) sched_begin_scripted(run_seed, rp.pol, *script); else sched_begin(run_seed, rp.pol);
   static int64_t switch_no; switch_no = 0; static uint64_t rules_hash_ref; rules_hash_ref = rules_hash0; static YR_RULES* rules_ref; rules_ref = sh.rules; static bool rules_changed; rules_changed = false;
   g_on_lockop = [](int task, bool holding) { g_watch.diff(task, !holding); };
   g_on_switch = [](int from, int to, int kind) { switch_no++; g_watch.diff(from, sched_locks_held() == 0); if ((switch_no & 7) == 0 && hash_rules(rules_ref) != rules_hash_ref) rules_changed = true; };
   for (size_t t = 0; t < rp.tasks.size(); t++) sched_spawn([&, t] { conc[t] = run_task(sh, rp.tasks[t]); });
   SchedStatus ss = sched_run();
-  rep.st = sched_stats(); rep.sched_hash = rep.st.hash;
+  rep.st = sched_stats(); rep.sched_hash = rep.st.hash; rep.trace = sched_trace();
   if (ss != SCHED_OK) { rep.klass = ss == SCHED_DEADLOCK ? "deadlock" : "no-progress"; rep.sig = std::string("sched|") + (ss == SCHED_DEADLOCK ? "deadlock" : "step-budget"); rep.detail = rep.st.deadlock_info; sched_end(); return rep; }
   g_watch.diff(-1, true);
   { int64_t before = g_watch.new_hot_pages; g_watch.diff_full(); if (g_watch.new_hot_pages != before) rep.new_hot = g_watch.new_hot_pages - before; }
@@ -273,15 +275,21 @@ int main(int argc, char** argv) {
   std::string cmd = args.pos.empty() ? "run" : args.pos[0];
   yr_initialize();
   g_watch.init();
+  // realloc must not depend on the heap's history: whether a block can grow in place decides whether the arena runs
+  // its relocation fix-up loop, i.e. how many basic blocks execute between two yield points
+  g_alloc.always_move = true;
   Stats st; std::set<std::string> reported;
   bool thorough = args.get("tier", "quick") == "thorough";
   uint64_t seed = args.num("seed", 1); int64_t from = args.num("from", 0);
-  int64_t only = -1; int max_tasks = -1;
+  int64_t only = -1; int max_tasks = -1; bool have_replay_script = false; std::vector<SchedEntry> replay_script;
   if (cmd == "replay") {
     J rp; if (args.pos.size() < 2 || !J::load(args.pos[1], rp)) return 2;
     const J& c = rp.has("replay") ? rp["replay"] : rp; seed = (uint64_t) c["seed"].num(); only = c["run"].num(); max_tasks = c.has("max_tasks") ? (int) c["max_tasks"].num() : -1;
+    if (c.has("schedule")) { have_replay_script = true; for (size_t k = 0; k < c["schedule"].size(); k++) replay_script.push_back({(int) c["schedule"][k][0].num(), c["schedule"][k][1].num(), (int) c["schedule"][k][2].num()}); }
   }
+  sim_detheap_enable();                       // yara's heap addresses become a function of the run alone
   std::vector<Shared> shared = make_shared(seed);
+  sim_detheap_mark();
   Shard sh = parse_shard(args);
   double budget = (double) args.num("budget", thorough ? 1200 : 60), t0 = now_s();
   int64_t nruns = args.num("runs", thorough ? 200000 : 1600);
@@ -293,7 +301,7 @@ int main(int argc, char** argv) {
     Rng rng(sim_run_seed(seed, i));
     RunPlan plan = gen_plan(rng, (int) shared.size(), rng.chance(1, 12));
     if (max_tasks > 0 && (int) plan.tasks.size() > max_tasks) plan.tasks.resize(max_tasks);
-    RunReport rep = execute(shared, plan, sim_run_seed(seed, i) ^ 0x5ced);
+    RunReport rep = execute(shared, plan, sim_run_seed(seed, i) ^ 0x5ced, have_replay_script ? &replay_script : nullptr);
     st.runs++; st.c["scans"] += rep.scans; st.c["faults_fired.context_switch"] += rep.st.switches; st.c["yield_decisions"] += rep.st.decisions;
     st.c["faults_fired.blocked_on_mutex"] += rep.st.blocked_on_mutex; st.c["max.tasks"] = std::max<int64_t>(st.c["max.tasks"], plan.tasks.size());
     st.c["yields.basic_block"] += rep.st.yields_by_kind[YK_BB]; st.c["yields.alloc"] += rep.st.yields_by_kind[YK_ALLOC] + rep.st.yields_by_kind[YK_FREE]; st.c["yields.mutex"] += rep.st.yields_by_kind[YK_MUTEX]; st.c["yields.signal"] += rep.st.yields_by_kind[YK_SIGNAL]; st.c["yields.clock"] += rep.st.yields_by_kind[YK_CLOCK]; st.c["yields.callback"] += rep.st.yields_by_kind[YK_CALLBACK]; st.c["yields.file"] += rep.st.yields_by_kind[YK_FILE];
@@ -302,14 +310,40 @@ int main(int argc, char** argv) {
     for (auto& t : plan.tasks) for (auto& s : t.scans) { if (s.api == A_RULES_FILE_TRUNC) st.c["faults_fired.file_truncated_while_mapped"]++; if (s.api == A_RULES_FD_MMAPFAIL) st.c["faults_fired.mmap_failure"]++; }
     if (plan.fresh_rules) st.c["probe.runs_on_freshly_loaded_rules"]++;
     if (rep.st.switches > 0) st.hash(rep.sched_hash);
-    if (dump) { J h = J::obj(); h.set("t", "rh"); h.set("run", i); char b[20]; snprintf(b, sizeof b, "%016llx", (unsigned long long) rep.sched_hash); h.set("h", std::string(b) + ":" + std::to_string(rep.st.switches) + ":" + rep.sig); emit_line(h); }
+    if (dump) { J h = J::obj(); h.set("t", "rh"); h.set("run", i); char b[20]; snprintf(b, sizeof b, "%016llx", (unsigned long long) rep.sched_hash); std::string kinds; for (int k = 0; k < 16; k++) kinds += std::to_string(rep.st.yields_by_kind[k]) + ","; h.set("h", std::string(b) + ":" + std::to_string(rep.st.switches) + ":" + rep.sig); h.set("kinds", kinds); h.set("decisions", rep.st.decisions); emit_line(h); }
     if (!rep.sig.empty()) {
       st.c["viol." + rep.klass]++;
       if (reported.insert(rep.sig).second || only >= 0) {
         // minimise: fewer tasks while the same signature persists (same seed, so the policy draw is unchanged)
-        int best = (int) plan.tasks.size(); std::string detail = rep.detail;
-        if (only < 0 && rep.klass != "deadlock" && rep.klass != "no-progress") for (int nt = 2; nt < best; nt++) { RunPlan p2 = plan; p2.tasks.resize(nt); RunReport r2 = execute(shared, p2, sim_run_seed(seed, i) ^ 0x5ced); if (r2.sig == rep.sig) { best = nt; detail = r2.detail; break; } }
+        int best = (int) plan.tasks.size(); std::string detail = rep.detail; std::vector<SchedEntry> script = rep.trace; bool have_script = false; size_t vol0 = 0, vol1 = 0;
+        uint64_t rs = sim_run_seed(seed, i) ^ 0x5ced;
+        if (only < 0 && rep.klass != "deadlock" && rep.klass != "no-progress") {
+          for (int nt = 2; nt < best; nt++) { RunPlan p2 = plan; p2.tasks.resize(nt); RunReport r2 = execute(shared, p2, rs); if (r2.sig == rep.sig) { best = nt; detail = r2.detail; script = r2.trace; break; } }
+          // the explicit schedule: first check that replaying the recorded decisions reproduces the violation, then
+          // delete voluntary switches (halving chunks) while it still does
+          RunPlan pm = plan; pm.tasks.resize(best);
+          RunReport rs1 = execute(shared, pm, rs, &script);
+          if (rs1.sig == rep.sig) {
+            have_script = true; for (auto& e : script) if (e.kind == 0) vol0++;
+            int budget = 36;
+            for (size_t chunk = std::max<size_t>(vol0 / 2, 1); chunk >= 1 && budget > 0; chunk = chunk / 2) {
+              bool removed_any = true;
+              while (removed_any && budget > 0) {
+                removed_any = false; std::vector<size_t> vol; for (size_t k = 0; k < script.size(); k++) if (script[k].kind == 0) vol.push_back(k);
+                for (size_t start = 0; start < vol.size() && budget > 0; start += chunk) {
+                  std::vector<SchedEntry> t; std::set<size_t> drop; for (size_t k = start; k < std::min(vol.size(), start + chunk); k++) drop.insert(vol[k]);
+                  for (size_t k = 0; k < script.size(); k++) if (!drop.count(k)) t.push_back(script[k]);
+                  budget--; RunReport r3 = execute(shared, pm, rs, &t);
+                  if (r3.sig == rep.sig) { script = r3.trace; detail = r3.detail; removed_any = true; break; }
+                }
+              }
+              if (chunk == 1) break;
+            }
+            for (auto& e : script) if (e.kind == 0) vol1++;
+          }
+        }
         J rp = J::obj(); rp.set("engine", "sim_threads"); rp.set("seed", (int64_t) seed); rp.set("run", i); if (best < (int) plan.tasks.size()) rp.set("max_tasks", best);
+        if (have_script) { J sc = J::arr(); for (auto& e : script) { J x = J::arr(); x.push(e.kind); x.push(e.at); x.push(e.to); sc.push(x); } rp.set("schedule", sc); rp.set("schedule_voluntary_switches", (int64_t) vol1); rp.set("schedule_voluntary_switches_before_minimisation", (int64_t) vol0); detail += " [explicit schedule: " + std::to_string(vol0) + " voluntary switches minimised to " + std::to_string(vol1) + "]"; }
         char hb[20]; snprintf(hb, sizeof hb, "%016llx", (unsigned long long) rep.sched_hash); rp.set("schedule_hash", hb); rp.set("plan", plan_brief(plan));
         emit_violation("C09", rep.klass, rep.sig, detail + " [" + std::to_string(best) + " tasks, " + std::to_string(rep.st.switches) + " context switches, policy " + std::to_string(plan.pol.kind) + "]", rp);
       }
